@@ -21,6 +21,7 @@
 #
 
 import sys, zipfile, xml.dom.minidom
+import defusedxml.minidom
 from odf.namespaces import nsdict
 from odf.elementtypes import *
 
@@ -290,14 +291,14 @@ class ODF2MoinMoin(object):
 
         zip = zipfile.ZipFile(filepath)
 
-        styles_doc = xml.dom.minidom.parseString(zip.read("styles.xml"))
+        styles_doc = defusedxml.minidom.parseString(zip.read("styles.xml"))
         fontfacedecls = styles_doc.getElementsByTagName("office:font-face-decls")
         if fontfacedecls:
             self.processFontDeclarations(fontfacedecls[0])
         self.processStyles(styles_doc.getElementsByTagName("style:style"))
         self.processListStyles(styles_doc.getElementsByTagName("text:list-style"))
 
-        self.content = xml.dom.minidom.parseString(zip.read("content.xml"))
+        self.content = defusedxml.minidom.parseString(zip.read("content.xml"))
         fontfacedecls = self.content.getElementsByTagName("office:font-face-decls")
         if fontfacedecls:
             self.processFontDeclarations(fontfacedecls[0])
